@@ -1,6 +1,9 @@
 package keyset
 
 import (
+	"errors"
+	"github.com/tink-crypto/tink-go/v2/internal/protoserialization"
+	tinkpb "github.com/tink-crypto/tink-go/v2/proto/tink_go_proto"
 	"github.com/tink-crypto/tink-go/v2/internal/verifrt"
 	"github.com/tink-crypto/tink-go/v2/key"
 )
@@ -336,3 +339,75 @@ func VerifH_manager_isolation() {
 	}
 	verifrt.Reach("end")
 }
+
+// Manager.Add(template) (also AddNewKeyFromParameters and NewHandle) from an arbitrary valid
+// state: the new key is created with ID requirement == the new entry's id for every output
+// prefix type except RAW (TINK, LEGACY and CRUNCHY all bind the id), and 0 for RAW; the entry
+// is appended ENABLED and not primary under an id that was never handed out; the UNKNOWN
+// prefix type and nil templates are refused and leave the state unchanged. Both key-creation
+// paths (the parameters registry and the legacy key-manager registry) are stubbed at the
+// registry boundary.
+func VerifH_manager_step_add() {
+	verifrt.NativeSkip("key creation (registries) is summarised")
+	n := verifrt.Choice("n", mgrMax())
+	m := arbitraryManager(n)
+	before := snapshot(m)
+	verifrt.UnwindAssume(3)
+	pt := [...]tinkpb.OutputPrefixType{tinkpb.OutputPrefixType_UNKNOWN_PREFIX, tinkpb.OutputPrefixType_TINK, tinkpb.OutputPrefixType_LEGACY, tinkpb.OutputPrefixType_RAW, tinkpb.OutputPrefixType_CRUNCHY}[verifrt.Choice("prefix", 5)]
+	newPath := verifrt.Choice("registry", 2) == 0
+	var createdReq uint32
+	created := 0
+	verifrt.Summarize("internal/protoserialization.ParseParameters", func(kt *tinkpb.KeyTemplate) (key.Parameters, error) {
+		if !newPath {
+			return nil, errStubAdd
+		}
+		return &stubParams{req: kt.GetOutputPrefixType() != tinkpb.OutputPrefixType_RAW}, nil
+	})
+	verifrt.Summarize("internal/keygenregistry.CreateKey", func(p key.Parameters, idRequirement uint32) (key.Key, error) {
+		created++
+		createdReq = idRequirement
+		return &stubKey{id: idRequirement, req: p.HasIDRequirement(), tag: 77}, nil
+	})
+	verifrt.Summarize("core/registry.NewKeyData", func(kt *tinkpb.KeyTemplate) (*tinkpb.KeyData, error) {
+		return &tinkpb.KeyData{TypeUrl: kt.GetTypeUrl(), Value: []byte{1}, KeyMaterialType: tinkpb.KeyData_SYMMETRIC}, nil
+	})
+	verifrt.Summarize("internal/protoserialization.ParseKey", func(s *protoserialization.KeySerialization) (key.Key, error) {
+		created++
+		id, req := s.IDRequirement()
+		createdReq = id
+		return &stubKey{id: id, req: req, tag: 78}, nil
+	})
+	id, err := m.Add(&tinkpb.KeyTemplate{TypeUrl: "type.googleapis.com/stub", OutputPrefixType: pt})
+	if pt == tinkpb.OutputPrefixType_UNKNOWN_PREFIX {
+		verifrt.Assert(err != nil, "a template with the UNKNOWN prefix type is refused")
+		unchanged(m, before, "Add")
+		verifrt.Reach("refused")
+		return
+	}
+	verifrt.Assert(err == nil && created == 1, "Add succeeds and creates exactly one key")
+	verifrt.Assert(len(m.entries) == n+1, "Add appends one entry")
+	last := m.entries[n]
+	verifrt.Assert(last.fixedID == id && last.status == Enabled && !last.isPrimary, "the new entry is ENABLED, not primary, and has the returned id")
+	verifrt.Assert(find(before, id) == -1, "the returned id was not in use")
+	for _, x := range handedOut {
+		verifrt.Assert(x != id, "the returned id was never handed out before")
+	}
+	if pt == tinkpb.OutputPrefixType_RAW {
+		verifrt.Assert(createdReq == 0, "RAW: the key is created without an ID requirement")
+	} else {
+		verifrt.Assert(createdReq == id, "TINK / LEGACY / CRUNCHY: the key is created with ID requirement == the entry's id")
+	}
+	idr, req := last.key.IDRequirement()
+	verifrt.Assert(verifrt.Implies(req, idr == id), "a key with an ID requirement carries the entry's id")
+	for i := 0; i < n; i++ {
+		e := m.entries[i]
+		verifrt.Assert(e.fixedID == before[i].id && e.status == before[i].status && e.isPrimary == before[i].primary, "Add leaves existing entries alone")
+	}
+	checkInv(m, "post")
+	checkNeverReissued(m, "post")
+	_, err = m.Add(nil)
+	verifrt.Assert(err != nil && len(m.entries) == n+1, "a nil template is refused")
+	verifrt.Reach("end")
+}
+
+var errStubAdd = errors.New("no parameters parser")
